@@ -124,5 +124,5 @@ L:
 		}
 	}
 
-	return &Conn{conn, CMSTargetCall}, nil
+	return &Conn{bufferedConn{conn, reader}, CMSTargetCall}, nil
 }
